@@ -337,3 +337,11 @@ def module_env(mod, names):
                 except Unfoldable:
                     pass
     return env
+
+
+def flat(node):
+    """Whole normalised text of a node (not truncated); `"fragment" in flat(node)` is true when the fragment occurs
+    textually or, read as a pattern (pm.py), matches somewhere inside the node modulo canonical form and local renames."""
+    from .pm import NormText
+
+    return NormText(" ".join(unparse(node).split()), node if isinstance(node, ast.AST) else None)
